@@ -32,6 +32,21 @@ func main() {
 		json.NewEncoder(os.Stdout).Encode(h.Jobs(os.Args[3], seed))
 	case "run":
 		hx.NativeRun(os.Args[2], os.Args[3])
+	case "selftest":
+		// batch mode: a JSON list of expressions in, a JSON list of outcomes out
+		b, err := os.ReadFile(os.Args[2])
+		if err != nil {
+			panic(err)
+		}
+		var exps []string
+		if err := json.Unmarshal(b, &exps); err != nil {
+			panic(err)
+		}
+		outs := make([]string, len(exps))
+		for i, e := range exps {
+			outs[i] = hx.SelftestOutcome(e)
+		}
+		json.NewEncoder(os.Stdout).Encode(outs)
 	case "replay":
 		r := sym.Current()
 		hx.NativeRun(r.Harness, r.Job)
